@@ -12,6 +12,13 @@ namespace Tahoe.Base
 
 abbrev Bytes := List UInt8
 
+/-- decidable equality of `Except` values (so that concrete decoder results can be checked by `decide`) -/
+instance instDecEqExcept {ε α : Type} [DecidableEq ε] [DecidableEq α] : DecidableEq (Except ε α)
+  | .ok a, .ok b => if h : a = b then isTrue (by rw [h]) else isFalse (by intro e; cases e; exact h rfl)
+  | .error a, .error b => if h : a = b then isTrue (by rw [h]) else isFalse (by intro e; cases e; exact h rfl)
+  | .ok _, .error _ => isFalse (by intro e; cases e)
+  | .error _, .ok _ => isFalse (by intro e; cases e)
+
 namespace Bytes
 
 def ofNats (ds : List Nat) : Bytes := ds.map UInt8.ofNat
